@@ -64,8 +64,13 @@ def care_menu(grid, f):
     return uniq
 
 
-def build(grid, f_mask, care_mask, backend='cudd'):
-    """(ctx, f, care, names, space) for a cover problem."""
+def build(grid, f_mask, care_mask, backend='cudd', order=0):
+    """(ctx, f, care, names, space) for a cover problem.
+
+    `order` > 0 declares the auxiliary parameters the cover algorithm will
+    use beforehand, in one of several orders: the branch-and-bound search
+    branches on the prime that `pick` returns, which follows the BDD
+    variable order (a legitimate configuration: same names, same hints)."""
     import omega.symbolic.fol as fol
     ctx = fol.Context()
     if backend == 'autoref':
@@ -74,6 +79,15 @@ def build(grid, f_mask, care_mask, backend='cudd'):
     decl = GRIDS[grid]
     ctx.declare(**dict(decl))
     names = [n for n, _ in decl]
+    if order:
+        vs = list(decl)
+        if order in (2, 3):
+            vs = vs[::-1]
+        prefixes = ['a', 'b', 'u', 'v'] if order in (1, 2) else \
+            ['v', 'u', 'b', 'a']
+        for n, h in vs:
+            for pre in prefixes:
+                ctx.declare(**{f'{pre}_{n}': h})
     rd = ro.Reader(ctx, names)
     sp = rd.space()
     f = rd.from_rows(ro.mask_rows(sp, f_mask))
